@@ -6,6 +6,8 @@ import (
 	"testing"
 
 	"google.golang.org/protobuf/encoding/prototext"
+
+	"github.com/bufbuild/protocompile/internal/verifmon/gen"
 )
 
 // TestDump is a development aid: VERIF_DUMP=<r2 name> prints protoc's descriptor as text.
@@ -28,5 +30,30 @@ func TestDump(t *testing.T) {
 	fmt.Println(prototext.MarshalOptions{Multiline: true, Resolver: w.types}.Format(d))
 	for n, e := range w.refused {
 		fmt.Println("REFUSED", n, e)
+	}
+}
+
+// TestDumpSCI is a development aid: VERIF_DUMP_SCI=<file in source_info.protoset> prints protoc's locations.
+func TestDumpSCI(t *testing.T) {
+	name := os.Getenv("VERIF_DUMP_SCI")
+	if name == "" {
+		t.Skip()
+	}
+	sets, _, err := gen.LoadR1()
+	if err != nil {
+		t.Fatal(err)
+	}
+	for _, s := range sets {
+		if s.Name != "source_info.protoset" {
+			continue
+		}
+		for _, f := range s.Files {
+			if f.GetName() != name {
+				continue
+			}
+			for _, l := range f.GetSourceCodeInfo().GetLocation() {
+				fmt.Println(locString(l))
+			}
+		}
 	}
 }
